@@ -32,7 +32,8 @@ def mc_cfg(cols, maxrows, maxplayers, kinds, emit=True):
 
 
 K4 = [("0", -1), ("1", -1), ("M", -1), ("2", 12)]
-K7 = [("0", -1), ("1", -1), ("2", -1), ("3", -1), ("M", -1), ("1", 0), ("2", 12)]
+# ("0", 7): a keysound bracket on an EMPTY cell - no note, and nothing of it may reach a later row (round 10, C07-P)
+K7 = [("0", -1), ("0", 7), ("1", -1), ("2", -1), ("3", -1), ("M", -1), ("1", 0), ("2", 12)]
 
 
 K3 = [("0", -1), ("1", -1), ("2", 12)]
